@@ -2,7 +2,7 @@
 import hashlib
 
 NA = "006e61"  # hex of "\x00na"
-FIELDS = ("route=", "u0=", "u1=", "chains=", "ran=", "long=", "code=")
+FIELDS = ("route=", "u0=", "u1=", "chains=", "ran=", "long=", "code=", "dirty=")
 
 
 def parse_out(line):
@@ -66,6 +66,9 @@ def cmp_dispatch(sess, R, M, params=False, chains=False, setup=False, urls=False
             continue
         if chains and (r.get("chains", "1") != "1" or r.get("ran", "1") != "1"):
             bad.append(i)
+            continue
+        if (params or chains) and r.get("dirty", "0") != "0":
+            bad.append(i)      # parameters written by an earlier request's handler leaked into this request
             continue
         if params or op.startswith("IREQ "):
             ok = all(r["params"].get(k, "<none>") == v for k, v in m["params"].items())
